@@ -17,8 +17,10 @@ EXTENDS Snapshot, TraceCommon
 CONSTANT Fuel
 
 VARIABLES l, sh, ob, sg, ex, sum,
-          ob2, fk      \* C11: observed restored level and the fork flags (fk.on = a fork is active)
-vars == <<l, sh, ob, sg, ex, sum, ob2, fk>>
+          ob2, fk,     \* C11: observed restored level and the fork flags (fk.on = a fork is active)
+          shp          \* the model run on the observed calls WITHOUT re-anchoring: the queue the pinned design
+                       \* would hold; the stale-ticket known findings are judged against it
+vars == <<l, sh, ob, sg, ex, sum, ob2, fk, shp>>
 
 MaxFails == 20
 AddFails(s, fs) ==
@@ -27,7 +29,7 @@ AddFails(s, fs) ==
 Fail(mon, line) == [mon |-> mon, line |-> line, sc |-> ex.sc, run |-> ex.run]
 
 Init ==
-  /\ l = 1 /\ sh = EmptyShared /\ ob = EmptyShared
+  /\ l = 1 /\ sh = EmptyShared /\ ob = EmptyShared /\ shp = EmptyShared
   /\ sg = SeqGhostInit(EmptyMap)
   /\ ex = [sc |-> -1, run |-> -1]
   /\ ob2 = EmptyShared /\ fk = [on |-> FALSE, good |-> TRUE, sameOrder |-> TRUE, noStale |-> TRUE]
@@ -39,7 +41,7 @@ Line == Rec[l]
 DoReset ==
   /\ Line.k = "reset"
   /\ LET o == ObsOf(Line.st) IN
-     /\ sh' = o /\ ob' = o
+     /\ sh' = o /\ ob' = o /\ shp' = o
      /\ sg' = SeqGhostInit(o.qmap)
      /\ ex' = [sc |-> Line.sc, run |-> Line.run]
      /\ ob2' = EmptyShared /\ fk' = [on |-> FALSE, good |-> TRUE, sameOrder |-> TRUE, noStale |-> TRUE]
@@ -56,7 +58,9 @@ DoCall ==
          mret == IF run.hang THEN [t |-> "hang"] ELSE run.me.ret
          conf == IF modelled THEN mret.t = r.t /\ RetEq(mret, r) /\ run.sh = post
                  ELSE r.t = "ro" /\ sh = post
-         v    == CallVerdict(ob, c, r, post, sg, IF modelled THEN [ret |-> mret, sh |-> run.sh] ELSE [ret |-> r, sh |-> sh])
+         prun == RunCall(shp, c, Fuel)
+         pret == IF prun.hang THEN [t |-> "hang"] ELSE prun.me.ret
+         v    == CallVerdict(ob, c, r, post, sg, IF modelled THEN [ret |-> pret, sh |-> prun.sh, pre |-> shp] ELSE [ret |-> r, sh |-> shp, pre |-> shp])
          lock == fk.on /\ Has(Line, "r2")
          post2 == IF lock THEN ObsOf(Line.st2) ELSE ob2
          run2 == RunCall(ob2, c, Fuel)
@@ -72,6 +76,7 @@ DoCall ==
         /\ ob' = post
         /\ sg' = v.sg
         /\ ob2' = post2 /\ fk' = fk
+        /\ shp' = IF modelled /\ ~prun.hang THEN prun.sh ELSE shp
         /\ sum' = AddFails([sum EXCEPT !.calls = @ + 1,
                                         !.lockstep = IF lock THEN @ + 1 ELSE @,
                                         !.lockdiff = IF lock /\ v11 # {} THEN @ + 1 ELSE @,
@@ -84,7 +89,7 @@ DoCall ==
                            {Fail(m, l) : m \in v.bad \cup extra})
   /\ UNCHANGED ex
 
-DoEnd == Line.k = "end" /\ UNCHANGED <<sh, ob, sg, ex, sum, ob2, fk>>
+DoEnd == Line.k = "end" /\ UNCHANGED <<sh, ob, sg, ex, sum, ob2, fk, shp>>
 
 (* C10: a second level built from the first through one restore path (possibly from input
    whose aggregate figures lie); C11: the same, kept for lock-step continuation *)
@@ -99,7 +104,7 @@ DoRestore ==
            THEN LET o2 == ObsOf(Line.st2) IN
                 ob2' = o2 /\ fk' = [on |-> TRUE, good |-> good, sameOrder |-> ForkFlags(ob, o2).sameOrder, noStale |-> ForkFlags(ob, o2).noStale]
            ELSE UNCHANGED <<ob2, fk>>
-  /\ UNCHANGED <<sh, ob, sg, ex>>
+  /\ UNCHANGED <<sh, ob, sg, ex, shp>>
 
 Next == /\ l <= Len(Rec) /\ l' = l + 1 /\ (DoReset \/ DoCall \/ DoEnd \/ DoRestore)
 Spec == Init /\ [][Next]_vars
